@@ -114,6 +114,7 @@ type caseSpec struct {
 	nilExpect  bool // unmarshal, slice and map kinds: the case lists a nil value (an empty non-nil result differs from it)
 	other      bool // interface-typed T: the value of this case is a *Q instead of a *P
 	emptyData  bool // marshal direction: the case expects no data at all ("" / nil); only a marshaler that returns (nil, nil) matches
+	adjustPred bool // with adjust: the case is also listed with the wrong kind of expectation (a predicate where none belongs, or none where one belongs) and its Before hook installs the right one
 	nilData    bool // binary unmarshal helper: the case lists nil input data; the decoder must be handed nil, not an empty non-nil slice
 }
 
@@ -179,6 +180,9 @@ func (c caseSpec) sig() string {
 	}
 	if c.nilData {
 		nv += ",listed-input=nil"
+	}
+	if c.adjustPred {
+		nv += ",before-hook-installs-or-clears-the-predicate"
 	}
 	return fmt.Sprintf("constraint=%d,beh=%s,before=%s,after=%s,pred=%s%s", c.constraint, behNames[c.beh], hookNames[c.before], hookNames[c.after], predNames[c.pred], nv)
 }
